@@ -576,6 +576,9 @@ func (g *FuncGen) heapSort(key string) string {
 	if key == "$alloc" {
 		return "(Array Int Bool)"
 	}
+	if s, ok := ghostKeys[key]; ok {
+		return s
+	}
 	if s, ok := g.heapKeys[key]; ok {
 		if strings.HasPrefix(key, "$g.") {
 			return s
@@ -624,6 +627,16 @@ func (g *FuncGen) exprText(e ast.Expr) string {
 // vcText renders the SMT query of an obligation.
 func (g *FuncGen) vcText(o *Obligation, prelude string) string {
 	var sb strings.Builder
+	if strings.Contains(prelude, axiomMarker) {
+		// slice the axioms to what this query can use
+		var body strings.Builder
+		for _, l := range g.trace[:o.traceLen] {
+			body.WriteString(l)
+			body.WriteString("\n")
+		}
+		body.WriteString(o.goal)
+		prelude = strings.Replace(prelude, axiomMarker, sliceAxioms(body.String()), 1)
+	}
 	sb.WriteString(prelude)
 	for _, d := range g.extraDecl {
 		sb.WriteString(d)
@@ -640,6 +653,8 @@ func (g *FuncGen) vcText(o *Obligation, prelude string) string {
 	sb.WriteString("(check-sat)\n")
 	return sb.String()
 }
+
+const axiomMarker = ";;AXIOMS;;\n"
 
 func hashText(s string) string {
 	h := sha256.Sum256([]byte(s))
